@@ -431,7 +431,8 @@ static void run_case(vf::Draw& d, vf::Case& c)
         if (j.kind == 0)
         {
             int fam = (int) d.range("family", 0, 5);
-            j.P = vf::draw_problem<Real>(d, fam, nmax);
+            // now and then a problem larger than anything the process has seen so far (sizes that grow during a run)
+            j.P = vf::draw_problem<Real>(d, fam, d.one_in("large_problem", 6) ? 3 * nmax : nmax);
             if (!j.P.ok)
             {
                 j.kind = 1;  // degenerate recipe: fall back to a shared-operator job
@@ -502,10 +503,16 @@ static void run_case(vf::Draw& d, vf::Case& c)
     c.add_desc(os.str());
     if (any_shared)
         c.cls("shared_product_wrapper");
-    // sequential baseline
+    // The sequential baseline is computed before OR after the concurrent run (drawn): state that is created lazily on first use
+    // (a function-local static that is grown on demand, a once-only cache) is already warm after a sequential pass, and the
+    // unsynchronised first use only happens when the threads come first.
+    const bool concurrent_first = d.flag("concurrent_run_before_sequential_baseline");
+    if (concurrent_first)
+        c.cls("concurrent_run_first");
     std::vector<vf::Snapshot> base(T);
-    for (int t = 0; t < T; t++)
-        base[t] = execute_job(jobs[t], sh);
+    if (!concurrent_first)
+        for (int t = 0; t < T; t++)
+            base[t] = execute_job(jobs[t], sh);
     // concurrent run
     const long reports_before = g_tsan_reports.load();
     std::vector<std::vector<vf::Snapshot>> got(T);
@@ -531,6 +538,9 @@ static void run_case(vf::Draw& d, vf::Case& c)
     go.store(true);
     for (auto& x : th)
         x.join();
+    if (concurrent_first)
+        for (int t = 0; t < T; t++)
+            base[t] = execute_job(jobs[t], sh);
     // overlap (classification only, never part of the verdict)
     int overlapping = 0;
     for (int a = 0; a < T; a++)
